@@ -75,7 +75,7 @@ template<class A> struct Sess {
                         else rc= usemm? A::RemoveBaseUriMm(&sd.uri,&slots[r].uri,&slots[b].uri,o?URI_TRUE:URI_FALSE,&mm.mm) : A::RemoveBaseUri(&sd.uri,&slots[r].uri,&slots[b].uri,o?URI_TRUE:URI_FALSE); });
       bool mf=disarm();
       J j; j.str("e",add?"SAddBase":"SRemoveBase").num("w",A::W).num("d",d).num(add?"r":"s",r).num("b",b).num(add?"opt":"mode",o).raw(add?"prer":"pres",prer).raw("preb",preb).num("rc",rc).num("fault",sig).boo("memfail",mf);
-      if(!sig&&rc==URI_SUCCESS){ sd.held=true; sd.valid=true; sd.owner=false; sd.deps=depsof(r); if(add){ auto x=depsof(b); sd.deps.insert(x.begin(),x.end()); } j.raw("out",proj(d)); Text t; j.raw("text", real_tostring<A>(sd.uri,t)? jopt_some(t):"[]"); }
+      if(!sig&&rc==URI_SUCCESS){ sd.held=true; sd.valid=true; sd.owner=(sd.uri.owner==URI_TRUE); sd.deps.clear(); if(!sd.owner){ sd.deps=depsof(r); if(add){ auto x=depsof(b); sd.deps.insert(x.begin(),x.end()); } } j.raw("out",proj(d)); Text t; j.raw("text", real_tostring<A>(sd.uri,t)? jopt_some(t):"[]"); }
       else if(!sig){ if(usemm) A::FreeUriMembersMm(&sd.uri,&mm.mm); else A::FreeUriMembers(&sd.uri); memset(&sd.uri,0,sizeof sd.uri); } else dead=true;
       if(!sig){ j.raw("postr",proj(r)).raw("postb",proj(b)); }
       g.event_to(shard,j.done()); if(!sig&&rc==URI_SUCCESS) observe(d); else if(!sig) observe_all(); return; }
